@@ -12,9 +12,13 @@ if wt != "-":
             shutil.copytree(f, os.path.join(dst, os.path.basename(f)), dirs_exist_ok=True, ignore=shutil.ignore_patterns("target"))
         else:
             shutil.copy(f, dst)
+    if os.path.exists(f"{wt}/seed.patch"):
+        shutil.copy(f"{wt}/seed.patch", f"{dst}/patch.diff")
+    if os.path.isdir(f"{wt}/seed_demo"):
+        shutil.copytree(f"{wt}/seed_demo", f"{dst}/seed_demo", dirs_exist_ok=True, ignore=shutil.ignore_patterns("target", "*.lock", "generated_last.rs"))
 # regenerate the patch from the worktree itself (library sources only)
     diff = subprocess.run(["git", "-C", wt, "diff", "--", "truc/src", "truc_runtime/src"], capture_output=True, text=True).stdout
-    if diff.strip():
+    if diff.strip() and not os.path.exists(f"{wt}/seed.patch"):
         open(f"{dst}/patch.diff", "w").write(diff)
 assert subprocess.run(["git", "-C", "/repo", "status", "--porcelain", "--untracked-files=no"], capture_output=True, text=True).stdout.strip() == "", "repo dirty"
 r = subprocess.run(["git", "-C", "/repo", "apply", f"{dst}/patch.diff"], capture_output=True, text=True)
